@@ -60,6 +60,10 @@ type foPool struct {
 	// noPoison: released frames keep their contents (as with the stock sync.Pool), so a stale
 	// reference keeps "working" and a second release through it is recorded
 	noPoison bool
+	// frames released by a connection's writer loop, i.e. written to the network: header as it
+	// went out (read by the releaser, who owns the frame, before the poison is applied)
+	wire      []foxWire
+	writerRel map[uint32]int
 }
 
 func newFoPool(name string) *foPool {
@@ -115,6 +119,9 @@ func (p *foPool) Release(f *tchannel.Frame) {
 		return
 	}
 	r.rels = append(r.rels, site)
+	if len(r.rels) == 1 && site == "Connection.writeFrames" {
+		p.noteWire(f)
+	}
 	if len(r.rels) == 1 && !p.noPoison {
 		r.pois = true
 		tchannel.VerifPoisonFrame(f)
@@ -821,12 +828,17 @@ func foRelay(rng *rand.Rand, calls []foCall, appendArg2 bool) (labels []int64, c
 	if appendArg2 {
 		rh.SetFrameFn(func(cf relay.CallFrame, _ *relay.Conn) { cf.Arg2Append([]byte("vk"), []byte("vv")) })
 	}
-	rly, err := tchannel.NewChannel("relay", &tchannel.ChannelOptions{RelayHost: rh, Logger: tchannel.NullLogger,
+	// hand-over family (engine_frameown_xfer.go): recording relay host, and the destination's writer
+	// is made to win the race against the relaying goroutine after every hand-over
+	rec := &foxRecHost{inner: rh}
+	rly, err := tchannel.NewChannel("relay", &tchannel.ChannelOptions{RelayHost: rec, Logger: tchannel.NullLogger,
 		DefaultConnectionOptions: tchannel.ConnectionOptions{FramePool: pr}})
 	if err != nil {
 		return nil, nil, "harness: " + err.Error()
 	}
 	defer rly.Close()
+	fast := foxInstallFastWriter(pr)
+	defer fast.remove()
 	if err := rly.ListenAndServe("127.0.0.1:0"); err != nil {
 		return nil, nil, "harness: " + err.Error()
 	}
@@ -933,14 +945,28 @@ func foRelay(rng *rand.Rand, calls []foCall, appendArg2 bool) (labels []int64, c
 		}
 		l.closeLast(kc)
 	}
+	xv := ""
+	if verdict == "" {
+		// every call completed: the relay's statistics must describe the frames that went out
+		foWait(2*time.Second, func() bool { _, _, st, en := rec.snapshot(); return st == en }, pr)
+		xv = foxJudge(rec, pr)
+	}
 	cli.Close()
 	rly.Close()
 	srv.Close()
+	fast.remove()
 	foSettle(25*time.Millisecond, 800*time.Millisecond, pc, pr, ps)
 	cs, v := foJudge(verdict == "", pc, pr, ps)
 	verdict = foMerge(v, verdict)
+	if verdict == "" {
+		verdict = xv
+	}
+	foxForced, foxInfeasible = fast.counts()
 	return l.v, cs, verdict
 }
+
+// forced / infeasible hand-over schedules of the last foRelay run (for the histogram)
+var foxForced, foxInfeasible int
 
 // ---------------------------------------------------------------- fo_chaos (oracle only)
 
@@ -1239,6 +1265,10 @@ func engineFrameOwn(rng *rand.Rand, n int, tier string, o *Out) {
 		labels, codes, verdict := foRelay(rng, calls, app)
 		for _, c := range calls {
 			o.Hist(fmt.Sprintf("relay method=%s append=%v", c.method, app))
+		}
+		o.Hist(fmt.Sprintf("relay hand-overs with the destination writer forced first: %v", foxForced > 0))
+		if foxInfeasible > 0 {
+			o.Hist("relay hand-over schedule infeasible (writer did not release within 2s)")
 		}
 		if i < 1 {
 			o.Sample(map[string]interface{}{"sub": "fo_relay", "calls": len(calls), "arg2_append": app, "frames": len(codes)})
